@@ -75,7 +75,8 @@ OVERLAPPING = [
     ("custom_async,checkpoint", "suspend", {"max_requests": 2, "max_depth": 4, "independent_conditions": True}),
 ]
 if THOROUGH:
-    OVERLAPPING += [("custom,checkpoint", "suspend", {"suspend_plans": True, "max_requests": 3, "max_depth": 6, "independent_conditions": True})]
+    # (three requests with pre / post plans and depth 6 - three suspensions nested - does not reach closure within the task budget: > 40 min)
+    OVERLAPPING += [("custom,checkpoint", "suspend", {"max_requests": 3, "max_depth": 4, "independent_conditions": True})]
 t2_tasks(PROP, "overlapping", OVERLAPPING, [c11_checks], expect=[P1, P1O])
 
 
